@@ -232,7 +232,7 @@ def gen_regex(r, depth=0):
 # ---------------------------------------------------------------- typed filters
 
 CMP_OPS = ["==", "!=", "<", "<=", ">", ">="]
-LIT_POOL = [None, True, False, 0, 1, -1, 2, 1.0, 0.5, 1.5, "", "a", "b", "1", "v1"]
+LIT_POOL = [None, True, False, 0, 1, -1, 2, 1.0, 0.5, 1.5, "", "a", "b", "1", "v1", -0.0, 1e308, 5e-324, 9007199254740991, -9007199254740991, 1e-7, 123456789.125]
 
 
 class FilterGen:
@@ -365,7 +365,7 @@ class FilterGen:
 def filter_doc(r, names, strings, depth=0):
     """Documents for filters: built from the names the expressions mention, with
     look-alike leaves and strings the regex witnesses are drawn from."""
-    leafs = [True, False, None, 0, 1, -1, 2, 1.0, 0.5, 1.5, "", "a", "b", "1", "v1"] + list(strings)
+    leafs = [True, False, None, 0, 1, -1, 2, 1.0, 0.5, 1.5, "", "a", "b", "1", "v1", -0.0, 1e308, 9007199254740991, 1e-7] + list(strings)
 
     def val(d):
         k = r.random()
